@@ -192,14 +192,8 @@ pub fn run_one(c: Cfg16, cx: &mut Choices, obs: &mut Obs16) -> Result<(), String
                 return Err(format!("the check of batch {b} ran on contents {got:?}, expected {members:?} (arrival {arrival:?})"));
             }
         }
-        // exactly one member got the closure's own error on failure, the others the parallel one
-        if s.fired[b] == Some(false) {
-            let members: Vec<usize> = (b * c.rpb..((b + 1) * c.rpb).min(c.total)).collect();
-            let own = members.iter().filter(|m| res[**m].as_ref().unwrap().as_ref().err().is_some_and(|e| e.contains("DZKPValidationFailed") && !e.contains("Parallel"))).count();
-            if own != 1 {
-                return Err(format!("batch {b} failed: {own} records received the check's own error (expected exactly 1)"));
-            }
-        }
+        // (which error value each record of a failed batch receives is not part of the property: every one
+        // of them must fail, which the per-record check above already established)
     }
     if s.calls.len() != nb {
         return Err(format!("{} batch checks ran for {nb} batches", s.calls.len()));
